@@ -318,6 +318,32 @@ class Runner:
             inst = self.inst(op[1])
             res = inst.call('supvisors', op[2], *op[3])
             w.obs('user_result', inst.idx, op[2], res[0], res[1] if len(res) > 1 and res[0] == 'fault' else None)
+        elif kind == 'rpc_sweep':
+            # one row of the method x state matrix: every listed XML-RPC on one instance within the same second
+            inst = self.inst(op[1])
+            only = op[3] if len(op) > 3 else []
+            if only and (not inst.alive or inst.supvisors is None or inst.supvisors.fsm.state.name not in only):
+                return    # row reserved for the rare states (steering only: the oracle never reads this)
+            for method, params in op[2]:
+                if not inst.alive:
+                    break
+                res = inst.call('supvisors', method, *params)
+                w.obs('user_result', inst.idx, method, res[0], res[1] if len(res) > 1 and res[0] == 'fault' else None)
+        elif kind == 'make_conflict':
+            # direct Supervisor starts until the k-th program known by two live instances truly runs on two of them
+            hosts = {}
+            for x in w.instances:
+                if x.alive:
+                    for name, state in x.truth().items():
+                        hosts.setdefault(name, []).append((x, state))
+            cands = sorted(name for name, lst in hosts.items() if len(lst) > 1)
+            if cands:
+                name = cands[int(op[1]) % len(cands)]
+                active = sum(1 for _x, state in hosts[name] if state in (10, 20, 30))
+                for x, state in hosts[name]:
+                    if active < 2 and state in (0, 100, 200):
+                        x.call('supervisor', 'startProcess', name, False)
+                        active += 1
         elif kind == 'group_ops':
             inst = self.inst(op[1])
             inst.call('supervisor', op[2], op[3])
@@ -661,6 +687,8 @@ def config_st(draw, profile=Profile):
         out['inst_options'] = {str(who): {key: draw(st.sampled_from(others))}}
     if profile.rpc_rare:
         out['rpc_rare'] = list(profile.rpc_rare)
+    if getattr(profile, 'sweep_states', None):
+        out['sweep_states'] = [list(x) for x in profile.sweep_states]
     return out
 
 
@@ -800,6 +828,10 @@ def op_st(draw, config, kinds, specs):
         return ['rpc', i, draw(st.sampled_from(['disable', 'disable', 'enable'])), [draw(st.sampled_from(programs)), False]]
     if kind == 'rpc_end':
         return ['rpc', i, draw(st.sampled_from(['restart', 'shutdown'])), []]
+    if kind == 'rpc_sweep':
+        return draw(sweep_rpc_st(config, i, specs))
+    if kind == 'make_conflict':
+        return [kind, draw(st.integers(0, 11))]
     if kind == 'group_ops':
         apps = [a['name'] for a in config.get('apps', [])] or ['nothing']
         return [kind, i, draw(st.sampled_from(['removeProcessGroup', 'addProcessGroup', 'stopProcessGroup'])),
@@ -913,6 +945,31 @@ def fuzz_rpc_st(draw, config, i, specs):
         method = draw(st.sampled_from(sorted(m for m in RPC_SIGNATURES if m not in rare and m != 'change_log_level')))
     params = [draw(param_st(config, kind, specs)) for kind in RPC_SIGNATURES[method]]
     return ['rpc_fuzz', i, method, params]
+
+
+SWEEP_LAST = ('conciliate', 'stop_process', 'stop_application', 'start_process', 'start_args', 'start_any_process',
+              'restart_process', 'start_application', 'restart_application', 'update_numprocs', 'disable', 'enable',
+              'end_sync', 'restart_sequence', 'restart', 'shutdown')
+SWEEP_SKIP = ('change_log_level', 'enable_host_statistics', 'enable_process_statistics', 'update_collecting_period')
+
+
+@st.composite
+def sweep_rpc_st(draw, config, i, specs):
+    """Every XML-RPC once with generated parameters: the methods without effect first (in a generated order), then the
+    commands (a generated subset, the ones that end the episode - restart, shutdown - drawn rarely and last)."""
+    first = [m for m in sorted(RPC_SIGNATURES) if m not in SWEEP_LAST and m not in SWEEP_SKIP]
+    first = draw(st.permutations(first))
+    last = [m for m in SWEEP_LAST if m not in ('restart', 'shutdown', 'restart_sequence')]
+    mask = draw(st.integers(0, (1 << len(last)) - 1))
+    if draw(st.integers(0, 3)) == 0:
+        mask = (1 << len(last)) - 1
+    last = [m for k, m in enumerate(last) if mask >> k & 1]
+    end = draw(st.sampled_from([[], [], [], [], ['restart_sequence'], ['restart'], ['shutdown']]))
+    calls = []
+    for method in list(first) + last + end:
+        calls.append([method, [draw(param_st(config, kind, specs)) for kind in RPC_SIGNATURES[method]]])
+    only = draw(st.sampled_from(config.get('sweep_states') or [[]]))
+    return ['rpc_sweep', i, calls, list(only)]
 
 
 @st.composite
